@@ -28,11 +28,11 @@ Record site := { st_obj : str; st_field : str; st_val : val; st_vn : str }.
    the outermost object (empty path) goes by its type name and may take the unscoped rule set *)
 Definition obj_ctx (c : cfg) (sn : str) (si : sinfo) : str * rm :=
   match sn with
-  | [] => (s_name si, match typed_rule c (s_tstr si) with
+  | [] => (s_name si, match typed_rule c (s_id si) with
                       | [] => match c_unscoped c with Some r => r | None => [] end
                       | r => r
                       end)
-  | _ => (sn, typed_rule c (s_tstr si))
+  | _ => (sn, typed_rule c (s_id si))
   end.
 
 (* the rule list of a field: none for hidden / time.Time fields; a programmatic rule replaces the tag *)
